@@ -1,5 +1,124 @@
+(* C30 — Ref advertisements are understood exactly.
+   Only statements here; every proof is [exact <lemma>].
+
+   Model.v: [handshake prefixes packets] = git::Connection::handshake + gix_protocol::handshake (+ ls_refs under
+   V2) on the server's packet lines; [parse_v1], [parse_v2], [from_capabilities] as in
+   gix-protocol/src/handshake/refs/shared.rs (after the three fixes of ../findings.txt).
+   Spec.v: [advertise_v0], [advertise_v2 prefixes] = what git 2.39.5 upload-pack writes for the records of
+   an advertisement [adv] (HEAD record + refs); [expected_v0], [expected_v2 prefixes] = the refs a client has
+   to report.  [wf_rec], [wf_rec1]: ids are 20 bytes, names are non-empty and have no ASCII whitespace
+   (v0/v1: also no NUL, no `^`, not the word `capabilities`), symbolic targets have no ASCII whitespace and
+   are not the literal `(null)`.  Nothing else is assumed about names: any other bytes, including invalid
+   UTF-8 and Unicode whitespace at the end, are covered. *)
 From GixV.Base Require Import Bytes BytesFacts Outcome.
-From GixV.C30 Require Import Model Spec Proofs.
+From GixV.C30 Require Import Model Spec Proofs ProofsLib ProofsV2 ProofsV1.
+
+(* ---- protocol v2 ------------------------------------------------------------------------------------- *)
+
+(* every ls-refs line git writes — plain, peeled tag, symbolic (also to a tag), unborn — parses to exactly the
+   ref it describes *)
+Theorem v2_line_understood : forall r x, wf_rec r -> expected_ref true r = Some x -> parse_v2 (v2_line r) = Ok x.
+Proof. exact L_parse_v2_line. Qed.
+
+(* the whole v2 conversation: capability advertisement of git 2.39.5, then the ls-refs response for any
+   ref-prefix list: gix sends symrefs, peel, unborn and the prefixes, and reports exactly the advertised
+   refs that match a prefix, in order *)
+Theorem v2_advertisement_understood : forall pfx a, Forall wf_rec (all_recs a) ->
+  handshake pfx (advertise_v2 pfx a) = Ok (V2 (ls_refs_request true pfx) (Ok (expected_v2 pfx a))).
+Proof. exact L_v2_advertisement_understood. Qed.
+
+(* ---- protocol v0 / v1 ---------------------------------------------------------------------------------- *)
+
+(* a ref line: becomes a direct ref, or the symbolic ref announced by a symref capability *)
+Theorem v1_ref_line : forall k rout sh o n, wf_oid o -> wf_name1 n ->
+  parse_v1 k rout sh (hex_encode o ++ x20 :: n ++ [x0a]) =
+  match position_lookup n k (rev rout) 0 with
+  | Some pos => match swap_remove pos (rev rout) with
+                | Some (ILookup _ target, fwd') => Ok (ISymbolic n target None o :: rev fwd', sh)
+                | _ => Panic
+                end
+  | None => Ok (IDirect n o :: rout, sh)
+  end.
+Proof. exact parse_v1_plain. Qed.
+
+(* a peeled line completes the tag before it — a direct ref or (fix 2) a symbolic one *)
+Theorem v1_peeled_line : forall k rout sh p n, wf_oid p -> wf_name1 n ->
+  parse_v1 k rout sh (hex_encode p ++ x20 :: n ++ CARET ++ [x0a]) =
+  match rout with
+  | IDirect q tag :: rest => if bytes_eqb q n then Ok (IPeeled q tag p :: rest, sh) else Err PInvariant
+  | ISymbolic q target None tag :: rest =>
+      if bytes_eqb q n then Ok (ISymbolic q target (Some tag) p :: rest, sh) else Err PInvariant
+  | _ => Err PInvariant
+  end.
+Proof. exact parse_v1_caret. Qed.
+
+(* git's capability string yields exactly one lookup entry, HEAD -> target, iff HEAD is symbolic and born *)
+Theorem git_capabilities_give_head_symref : forall a,
+  opt_all (fun t => nows t = true /\ t <> NULL_TARGET) (head_symref a) ->
+  caps_v0 a <> [] /\ from_capabilities (split_all x20 (caps_v0 a)) [] = Ok (lookups_of a).
+Proof. exact L_git_caps. Qed.
+
+(* HEAD resolves (symbolic to a branch or to an annotated tag, or detached, also at a tag): the handshake
+   reports HEAD with its target, tag and peeled id, and every ref with its peeled id *)
+Theorem v1_advertisement_understood_with_head : forall pfx a h o,
+  ahead a = Some h -> rname h = HEAD -> roid h = Some o -> wf_rec1 h -> opt_all wf_target1 (rtarget h) ->
+  Forall wf_rec1 (arefs a) ->
+  handshake pfx (advertise_v0 a) = Ok (V01 1 (expected_v0 a) []).
+Proof. exact L_v1_with_head. Qed.
+
+(* no HEAD or an unborn HEAD, but refs *)
+Theorem v1_advertisement_understood_without_head : forall pfx a r1 o1 rs,
+  match ahead a with Some h => roid h = None | None => True end ->
+  arefs a = r1 :: rs -> roid r1 = Some o1 -> Forall wf_rec1 (arefs a) ->
+  handshake pfx (advertise_v0 a) = Ok (V01 1 (expected_v0 a) []).
+Proof. exact L_v1_without_head. Qed.
+
+(* empty repository: git 2.39.5 sends a flush packet only, newer git a `capabilities^{}` line: no refs *)
+Theorem empty_repository_understood : forall pfx a,
+  match ahead a with Some h => roid h = None | None => True end -> arefs a = [] ->
+  handshake pfx (advertise_v0 a) = Ok (V01 0 (expected_v0 a) [])
+  /\ handshake pfx (advertise_v0_newer a) = Ok (V01 1 (expected_v0 a) []) /\ expected_v0 a = [].
+Proof. exact L_v1_empty. Qed.
 
 Theorem flush_first_is_v0 : forall pfx rest, handshake pfx (Flush :: rest) = Ok (V01 0 [] []).
 Proof. exact L_flush_first_is_v0. Qed.
+
+(* ---- non-vacuity: a repository with HEAD -> annotated tag and a branch name ending in U+00A0 ------------ *)
+
+Definition ex_o1 : bytes := repeat x11 20.
+Definition ex_o2 : bytes := repeat x22 20.
+Definition ex_head : rec :=
+  {| rname := HEAD; roid := Some ex_o1; rpeeled := Some ex_o2; rtarget := Some (bs "refs/tags/v1") |}.
+Definition ex_adv : adv :=
+  {| ahead := Some ex_head;
+     arefs := [ {| rname := bs "refs/heads/a" ++ [xc2; xa0]; roid := Some ex_o2; rpeeled := None; rtarget := None |};
+                {| rname := bs "refs/remotes/o/HEAD"; roid := Some ex_o2; rpeeled := None; rtarget := Some (bs "refs/heads/a" ++ [xc2; xa0]) |};
+                {| rname := bs "refs/tags/v1"; roid := Some ex_o1; rpeeled := Some ex_o2; rtarget := None |} ] |}.
+
+Example ex_adv_is_wellformed :
+  wf_rec1 ex_head /\ opt_all wf_target1 (rtarget ex_head) /\ Forall wf_rec1 (arefs ex_adv) /\ Forall wf_rec (all_recs ex_adv).
+Proof.
+  unfold wf_rec1, wf_rec, wf_name1, wf_name, wf_target1, wf_target, wf_oid.
+  repeat (split || constructor || discriminate || reflexivity).
+Qed.
+
+Example ex_v1_result :
+  handshake [] (advertise_v0 ex_adv) =
+  Ok (V01 1 [ Symbolic HEAD (bs "refs/tags/v1") (Some ex_o1) ex_o2;
+              Direct (bs "refs/heads/a" ++ [xc2; xa0]) ex_o2;
+              Direct (bs "refs/remotes/o/HEAD") ex_o2;
+              Peeled (bs "refs/tags/v1") ex_o1 ex_o2 ] []).
+Proof. vm_compute. reflexivity. Qed.
+
+Example ex_v2_result :
+  handshake [bs "refs/remotes/"; bs "HEAD"] (advertise_v2 [bs "refs/remotes/"; bs "HEAD"] ex_adv) =
+  Ok (V2 (ls_refs_request true [bs "refs/remotes/"; bs "HEAD"])
+         (Ok [ Symbolic HEAD (bs "refs/tags/v1") (Some ex_o1) ex_o2;
+               Symbolic (bs "refs/remotes/o/HEAD") (bs "refs/heads/a" ++ [xc2; xa0]) None ex_o2 ])).
+Proof. vm_compute. reflexivity. Qed.
+
+(* an unborn HEAD under v2 *)
+Example ex_unborn :
+  parse_v2 (v2_line {| rname := HEAD; roid := None; rpeeled := None; rtarget := Some (bs "refs/heads/main") |})
+  = Ok (Unborn HEAD (bs "refs/heads/main")).
+Proof. vm_compute. reflexivity. Qed.
